@@ -240,8 +240,8 @@ def run(ck):
             seen = {}
             for c in vcalls:
                 env = c[5]
-                okn, nm = const_of(env.get("name"))
-                okp, np_ = const_of(env.get("num_params"))
+                okn, nm = const_of(argp(env, -1))  # _validate_function(fn, num_params, name) by position
+                okp, np_ = const_of(argp(env, -2))
                 if okn and okp:
                     seen[nm] = np_
             for ev in P.EVENTS:
